@@ -120,6 +120,7 @@ func c06Alphabet(small bool) []model.Instr {
 	}
 	for _, src := range []string{"s", "e"} {
 		out = append(out, model.Instr{Fn: "fn1:same", Src1: src, Dst: "n1"})
+		out = append(out, model.Instr{Fn: "fn1:fill", Src1: src, Dst: "n1"}, model.Instr{Fn: "fn1:fill", Src1: src, Dst: src})
 		out = append(out, model.Instr{Fn: "fn2:pass", Src1: src, Src2: src, Dst: "n2"})
 	}
 	out = append(out, model.Instr{Fn: "fn2:pass", Src1: "s", Src2: "n1", Dst: "n2"}, model.Instr{Fn: "fn2:pass", Src1: "n1", Src2: "s", Dst: "s"})
